@@ -124,6 +124,10 @@ def main(argv=None):
     st_cases = 0
     st_mismatch = []
     results = []
+    import tempfile
+    flagdir = tempfile.mkdtemp(prefix='vf_flag.')
+    flag = os.path.join(flagdir, 'settled')
+    os.environ['VF_SETTLED_FLAG'] = flag
     os.environ['VF_MAIN_PID'] = str(os.getpid())      # workers exit on their own if this process disappears
     with ctx.Pool(processes=a.jobs, maxtasksperchild=1) as pool:
         import signal
@@ -148,6 +152,8 @@ def main(argv=None):
             st_async = pool.map_async(_selftest_task, st_tasks, chunksize=1)
         for r in pool.imap_unordered(harness._worker, tasks, chunksize=1):
             results.append(r)
+            if r['violations'] and not os.path.exists(flag):
+                open(flag, 'w').close()
             if a.verbose:
                 print('  %-28s %-60s %-12s paths=%d claims=%d unsat=%d sat=%d unk=%d %.1fs %s' % (
                     r['scenario'], json.dumps(r['params'], sort_keys=True)[:60], r['status'], r['paths'],
@@ -159,6 +165,8 @@ def main(argv=None):
                     m['scenario'] = r['scenario']
                     m['params'] = r['params']
                     st_mismatch.append(m)
+    import shutil
+    shutil.rmtree(flagdir, ignore_errors=True)
     # --- aggregate -------------------------------------------------------------------------
     viols, knowns, errors, inconcl, optional_inc = [], {}, [], [], []
     agg = dict(paths=0, claims=0, structural=0, unsat=0, sat=0, unknown=0, queries=0, decisions=0, solver_s=0.0,
